@@ -288,7 +288,11 @@ co-request is neither failed nor cancelled (at most it is woken and completes). 
 theorem others_unaffected_step (cfg : Cfg) (s : St) (e : Exc) : CoRel s (throwAt cfg s e) := by
   unfold throwAt
   split
-  · exact CoRel.trans ⟨rfl, rfl, rfl, Or.inl rfl⟩ (corel_connPhaseExit _ e)
+  · simp only []
+    split
+    · exact CoRel.trans (CoRel.trans (b := { s with poolQ := s.poolQ.filter (· ≠ .R), rWoken := false })
+        ⟨rfl, rfl, rfl, Or.inl rfl⟩ (corel_releaseWaiter cfg _)) (corel_connPhaseExit _ e)
+    · exact CoRel.trans (b := { s with poolQ := s.poolQ.filter (· ≠ .R) }) ⟨rfl, rfl, rfl, Or.inl rfl⟩ (corel_connPhaseExit _ e)
   · exact CoRel.trans (CoRel.trans (b := { s with dnsWaitR := false }) ⟨rfl, rfl, rfl, Or.inl rfl⟩ (corel_releasePlaceholder cfg _)) (corel_connPhaseExit _ e)
   · exact CoRel.trans (CoRel.trans (b := { s with dnsWaitR := false }) ⟨rfl, rfl, rfl, Or.inl rfl⟩ (corel_releasePlaceholder cfg _)) (corel_connPhaseExit _ e)
   · simp only []
@@ -308,16 +312,17 @@ theorem others_unaffected_step (cfg : Cfg) (s : St) (e : Exc) : CoRel s (throwAt
 /- Full statement (not proved as a theorem over timelines):
    `∀ cfg co tl, let s := run cfg (init co) tl; s.cpc ≠ .failed ∧ s.cpc ≠ .cancelled ∧
       (quiescent s → slotFree cfg s → Who.C ∉ s.poolQ)`.
-   The last conjunct is FALSE for the unchanged code (F8: a pool waiter that was woken and is
-   cancelled before it runs swallows the wake-up) — see `pool_cowaiter_lost_wakeup` below. -/
+   The single-transition form above is what is proved; the last conjunct was FALSE before the
+   repository's fix "a woken pool waiter that is cancelled before it runs passes the wake-up on"
+   (finding F8) — the model follows the fixed code, see the run below. -/
 
 /-- The F8 scenario as a kernel-checked run of the model: limit 1, holder H, R and C queued;
-H releases (R is woken), R is cancelled before it runs: R ends cancelled, the slot is free,
-and C is still queued — nobody will wake it. -/
-theorem pool_cowaiter_lost_wakeup :
+H releases (R is woken), R is cancelled before it runs: R ends cancelled and hands the
+wake-up on, so C is served. -/
+theorem pool_cowaiter_wakeup_passed_on :
     let s := observe { limit1 := true } (run { limit1 := true } (init true)
       [(0, [.startH]), (10, [.startR]), (11, [.startC]), (500, [.holderRelease, .cancelLate])])
-    s.pc = .done .cancelled 500 ∧ s.slot = .none ∧ s.holder = false ∧ s.poolQ = [.C] ∧ s.cpc = .poolWait := by
+    s.pc = .done .cancelled 500 ∧ s.slot = .none ∧ s.holder = false ∧ s.poolQ = [] ∧ s.cpc = .ok := by
   decide +kernel
 
 /-- The same instant with the cancellation delivered BEFORE the holder's task runs: the waiter
